@@ -196,8 +196,9 @@ class Env(object):
             "sent": len(w.all_sent), "alive": not w.baton.dead,
         }
 
-    def inject(self, data, addr):
-        """returns list of (oracle, sig, message)"""
+    def inject(self, data, addr, clock_moves=False):
+        """returns list of (oracle, sig, message).  clock_moves: the caller advances time between injections, so the server's
+        own timer-driven keep-alives to a still connected peer may be emitted in the same iteration (they are not replies)"""
         w = self.w
         out = []
         o0 = self.observe()
@@ -219,7 +220,7 @@ class Env(object):
             out.append(("alive", "the server thread died after a hostile datagram (%s)" % type(w.baton.error).__name__, repr(w.baton.error)))
             return out
         if blocked:
-            if q1 != q0 or o1["temp"] != o0["temp"] or o1["connections"] != o0["connections"] or o1["events"] != o0["events"] or o1["sent"] != o0["sent"]:
+            if q1 != q0 or o1["temp"] != o0["temp"] or o1["connections"] != o0["connections"] or o1["events"] != o0["events"] or (o1["sent"] != o0["sent"] and not clock_moves):
                 out.append(("blocklist", "a datagram from a block-listed address is processed (%s)" % ("queued" if q1 != q0 else "effect"),
                             "queue %d->%d temp %s sent %d->%d" % (q0, q1, o1["temp"] != o0["temp"], o0["sent"], o1["sent"])))
         if self.honest_up:
@@ -550,6 +551,49 @@ def work(arg):
                     flag([("honest", "the honest client's echo does not arrive any more after the attack", "%d injections" % total)], {"part": "family", "mtu": mtu, "source": source})
         finally:
             env.close()
+    elif kind == "ban":
+        # a peer is block-listed AFTER it completed the handshake (and another after its hello): from then on its
+        # datagrams must be discarded before any processing, whichever way the list is changed
+        _, mtu, how, entry = arg
+        env = Env(mtu, "none") if entry == "twisted" else UdpEnv(mtu, "none")
+        try:
+            w = env.w
+            ce = w.clients[0]
+            wit = {"part": "ban", "mtu": mtu, "how": how, "entry": entry}
+            ips = {ce.addr[0], TEMP[0]}
+            if how == "add":
+                for ip in ips:
+                    w.ctxt.blocklist.add(ip)
+            else:
+                w.ctxt.setBlockList(set(ips))
+            env.honest_up = False   # the formerly honest client is now a banned source: the 'honest unchanged' oracle does not apply,
+            hc = w.ctxt.connections.get(ce.addr)   # ... but its connection must not process anything any more
+            recv0 = hc.stats.received if hc is not None else None
+            events0 = len([e for e in w.handler_log if e[0] == "handle_message"])
+            for t in range(24):
+                if t % 4 == 0:
+                    ce.client.send(b"after-ban-%d" % t, retry=0)
+                w.vt.now += w.dt
+                w.tickno += 1
+                ce.client.update()
+                out = [d for d in getattr(w, "net", []) if d.dst == "s"] if hasattr(w, "net") else []
+                datas = [d.data for d in out]
+                if hasattr(w, "net"):
+                    w.net = [d for d in w.net if d.dst != "s"]
+                else:
+                    datas = list(w.pending_c2s)
+                    w.pending_c2s = []
+                for data in datas:
+                    total += 1
+                    flag(env.inject(data, ce.addr, clock_moves=True), wit)
+                flag(env.inject(crc(hdr(TO_SERVER, 3, 6, 1) + b"\x00\x01junk"), TEMP, clock_moves=True), wit)
+                total += 1
+            if hc is not None and hc.stats.received != recv0:
+                flag([("blocklist", "a connected peer that was block-listed afterwards is still served", "its connection accepted %d more datagrams" % (hc.stats.received - recv0))], wit)
+            if len([e for e in w.handler_log if e[0] == "handle_message"]) != events0:
+                flag([("blocklist", "messages of a peer that was block-listed after connecting still reach the handler", "")], wit)
+        finally:
+            env.close()
     elif kind == "pairs":
         _, mtu = arg
         env = Env(mtu, "none")
@@ -617,6 +661,9 @@ def run(tier, seed):
             for source in ("fresh", "temp", "spoofed", "blocked"):
                 jobs.append(("family", mtu, blocklist, source, 0, 1 if tier == "thorough" else 2, "structured", "udp"))
         jobs.append(("pairs", mtu))
+        for how in ("add", "setBlockList"):
+            for entry in ("twisted", "udp"):
+                jobs.append(("ban", mtu, how, entry))
         jobs.append(("mass", mtu, 2000 if tier == "quick" else 6000))
     if seed:
         k = seed % len(jobs)
@@ -642,7 +689,7 @@ def run(tier, seed):
         "worlds": len(jobs), "classes": dict(classes),
         "evaluations": total, "distinct_nontrivial": total - rnd,
         "rule": "structured family = body kind (13: empty, junk, valid hello, 6 damaged hellos, 3 serializer bombs, unknown id) x type byte 0..8 x count {0,1,2,255} x length field {true,0,1,true+1,65535} x magic x crc ok/bad + two-message datagrams + raw lengths incl. RECV_SIZE; "
-                "x source {fresh port each time, temp-pool address, spoofed honest address, block-listed} x block list {none, attacker, honest} x MTU {1500, 512}; pairs of productive datagrams; a flood of hellos from 2000/6000 addresses; every injection through datagramReceived + one real loop iteration",
+                "x source {fresh port each time, temp-pool address, spoofed honest address, block-listed} x block list {none, attacker, honest} x MTU {1500, 512}; pairs of productive datagrams; block-listing a connected peer and a temp-pool peer mid-session (set.add and setBlockList, both entry points); a flood of hellos from 2000/6000 addresses; every injection through datagramReceived + one real loop iteration",
         "exhaustive": True,
         "samples": [{"source": "fresh", "label": "type 1 count 1 len-field true to-server crc-ok body: hello, padding 1 short"},
                     {"source": "spoofed", "label": "type 6 count 2 len-field true to-server crc-ok body: junk"}, {"mass": 2000}],
